@@ -1245,7 +1245,7 @@ impl<'a> ExprGen<'a> {
     }
 
     /// an expression of type `ty` of depth ≤ `d`
-    pub fn gen(&self, rng: &mut Rng, ty: Ty, d: u32) -> Expr {
+    pub fn expr(&self, rng: &mut Rng, ty: Ty, d: u32) -> Expr {
         if d == 0 || rng.chance(1, 5) {
             return self.leaf(rng, ty);
         }
@@ -1255,26 +1255,26 @@ impl<'a> ExprGen<'a> {
             0 => {
                 // searched CASE
                 let n = 1 + rng.below(2) as usize;
-                let whens = (0..n).map(|_| (self.gen(rng, Ty::Bool, d - 1), self.gen(rng, ty, d - 1))).collect();
-                let els = if rng.chance(2, 3) { Some(b(self.gen(rng, ty, d - 1))) } else { None };
+                let whens = (0..n).map(|_| (self.expr(rng, Ty::Bool, d - 1), self.expr(rng, ty, d - 1))).collect();
+                let els = if rng.chance(2, 3) { Some(b(self.expr(rng, ty, d - 1))) } else { None };
                 return Expr::Case(None, whens, els);
             }
             1 => {
                 // simple CASE over some operand type
                 let ot = if rng.chance(1, 2) { Ty::Int(64) } else { self.any_ty(rng) };
                 let n = 1 + rng.below(2) as usize;
-                let op = self.gen(rng, ot, d - 1);
-                let whens = (0..n).map(|_| (self.gen(rng, ot, 0), self.gen(rng, ty, d - 1))).collect();
-                let els = if rng.chance(2, 3) { Some(b(self.gen(rng, ty, d - 1))) } else { None };
+                let op = self.expr(rng, ot, d - 1);
+                let whens = (0..n).map(|_| (self.expr(rng, ot, 0), self.expr(rng, ty, d - 1))).collect();
+                let els = if rng.chance(2, 3) { Some(b(self.expr(rng, ty, d - 1))) } else { None };
                 return Expr::Case(Some(b(op)), whens, els);
             }
             2 => {
                 let n = 2 + rng.below(2) as usize;
-                return Expr::Coalesce((0..n).map(|_| self.gen(rng, ty, d - 1)).collect());
+                return Expr::Coalesce((0..n).map(|_| self.expr(rng, ty, d - 1)).collect());
             }
             3 => {
                 if ty != Ty::Bool {
-                    return Expr::Nullif(b(self.gen(rng, ty, d - 1)), b(self.gen(rng, ty, 0)));
+                    return Expr::Nullif(b(self.expr(rng, ty, d - 1)), b(self.expr(rng, ty, 0)));
                 }
             }
             _ => {}
@@ -1283,27 +1283,27 @@ impl<'a> ExprGen<'a> {
             Ty::Int(w) => match rng.below(10) {
                 0..=4 => {
                     let op = *rng.pick(&[Op::Add, Op::Add, Op::Sub, Op::Sub, Op::Mul, Op::Mul, Op::Div, Op::Mod]);
-                    let l = self.gen(rng, ty, d - 1);
+                    let l = self.expr(rng, ty, d - 1);
                     let r = if matches!(op, Op::Div | Op::Mod) {
                         if rng.below(100) < self.err_pct {
-                            self.gen(rng, ty, d - 1)
+                            self.expr(rng, ty, d - 1)
                         } else if rng.chance(1, 2) {
                             // guarded divisor
-                            Expr::Nullif(b(self.gen(rng, ty, d - 1)), b(Expr::Lit(Val::Int(w, 0), ty, false)))
+                            Expr::Nullif(b(self.expr(rng, ty, d - 1)), b(Expr::Lit(Val::Int(w, 0), ty, false)))
                         } else {
                             Expr::Lit(Val::Int(w, *rng.pick(&[1, 2, 3, -2, 7])), ty, false)
                         }
                     } else {
-                        self.gen(rng, ty, d - 1)
+                        self.expr(rng, ty, d - 1)
                     };
                     Expr::Bin(op, b(l), b(r))
                 }
-                5 => Expr::Neg(b(self.gen(rng, ty, d - 1))),
+                5 => Expr::Neg(b(self.expr(rng, ty, d - 1))),
                 6 => {
                     // widen a narrower integer expression (implicit when it is an operand position the
                     // coercion rules cover; here always written explicitly)
                     let w2 = *rng.pick(&[8u8, 16, 32, 64]);
-                    let e = self.gen(rng, Ty::Int(w2), d - 1);
+                    let e = self.expr(rng, Ty::Int(w2), d - 1);
                     if w2 == w {
                         e
                     } else if w2 < w {
@@ -1317,9 +1317,9 @@ impl<'a> ExprGen<'a> {
                 7 => {
                     // string → integer
                     let try_ = rng.below(100) >= self.err_pct;
-                    Expr::Cast { ty, try_, implicit: false, e: b(self.gen(rng, Ty::Str, d - 1)) }
+                    Expr::Cast { ty, try_, implicit: false, e: b(self.expr(rng, Ty::Str, d - 1)) }
                 }
-                8 => Expr::Cast { ty, try_: false, implicit: false, e: b(self.gen(rng, Ty::Bool, d - 1)) },
+                8 => Expr::Cast { ty, try_: false, implicit: false, e: b(self.expr(rng, Ty::Bool, d - 1)) },
                 _ => self.leaf(rng, ty),
             },
             Ty::Bool => match rng.below(16) {
@@ -1329,13 +1329,13 @@ impl<'a> ExprGen<'a> {
                     let (l, r) = self.comparable_pair(rng, t, d - 1);
                     Expr::Bin(op, b(l), b(r))
                 }
-                5 | 6 => Expr::Bin(*rng.pick(&[Op::And, Op::Or]), b(self.gen(rng, Ty::Bool, d - 1)), b(self.gen(rng, Ty::Bool, d - 1))),
-                7 => Expr::Not(b(self.gen(rng, Ty::Bool, d - 1))),
+                5 | 6 => Expr::Bin(*rng.pick(&[Op::And, Op::Or]), b(self.expr(rng, Ty::Bool, d - 1)), b(self.expr(rng, Ty::Bool, d - 1))),
+                7 => Expr::Not(b(self.expr(rng, Ty::Bool, d - 1))),
                 8 => {
                     let t = self.any_ty(rng);
-                    Expr::Is(IsKind::Null, rng.chance(1, 2), b(self.gen(rng, t, d - 1)))
+                    Expr::Is(IsKind::Null, rng.chance(1, 2), b(self.expr(rng, t, d - 1)))
                 }
-                9 => Expr::Is(*rng.pick(&[IsKind::True, IsKind::False, IsKind::Unknown]), rng.chance(1, 2), b(self.gen(rng, Ty::Bool, d - 1))),
+                9 => Expr::Is(*rng.pick(&[IsKind::True, IsKind::False, IsKind::Unknown]), rng.chance(1, 2), b(self.expr(rng, Ty::Bool, d - 1))),
                 10 => {
                     let t = self.any_ty(rng);
                     let (l, r) = self.comparable_pair(rng, t, d - 1);
@@ -1344,24 +1344,24 @@ impl<'a> ExprGen<'a> {
                 11 | 12 => {
                     let t = if rng.chance(2, 3) { Ty::Int(64) } else { self.any_ty(rng) };
                     let n = 1 + rng.below(4) as usize;
-                    let x = self.gen(rng, t, d - 1);
-                    let list = (0..n).map(|_| if rng.chance(3, 4) { self.lit(rng, t) } else { self.gen(rng, t, d - 1) }).collect();
+                    let x = self.expr(rng, t, d - 1);
+                    let list = (0..n).map(|_| if rng.chance(3, 4) { self.lit(rng, t) } else { self.expr(rng, t, d - 1) }).collect();
                     Expr::In(rng.chance(1, 2), b(x), list)
                 }
                 13 => {
                     let t = if rng.chance(2, 3) { Ty::Int(64) } else { Ty::Str };
-                    Expr::Between(rng.chance(1, 3), b(self.gen(rng, t, d - 1)), b(self.gen(rng, t, 0)), b(self.gen(rng, t, 0)))
+                    Expr::Between(rng.chance(1, 3), b(self.expr(rng, t, d - 1)), b(self.expr(rng, t, 0)), b(self.expr(rng, t, 0)))
                 }
                 14 if self.allow_like => {
                     let pats = ["a%", "%b", "a_", "%", "_", "", "a\\%", "%a%", "a%c", "A%", "_b%"];
-                    let pat = if rng.chance(4, 5) { Expr::Lit(Val::Str(rng.pick(&pats).replace('\\', "")), Ty::Str, false) } else { self.gen(rng, Ty::Str, 0) };
-                    Expr::Like { neg: rng.chance(1, 3), ci: rng.chance(1, 4), e: b(self.gen(rng, Ty::Str, d - 1)), pat: b(pat), esc: None }
+                    let pat = if rng.chance(4, 5) { Expr::Lit(Val::Str(rng.pick(&pats).replace('\\', "")), Ty::Str, false) } else { self.expr(rng, Ty::Str, 0) };
+                    Expr::Like { neg: rng.chance(1, 3), ci: rng.chance(1, 4), e: b(self.expr(rng, Ty::Str, d - 1)), pat: b(pat), esc: None }
                 }
                 _ => self.leaf(rng, ty),
             },
             Ty::Str => match rng.below(6) {
-                0 | 1 => Expr::Bin(Op::Concat, b(self.gen(rng, Ty::Str, d - 1)), b(self.gen(rng, Ty::Str, d - 1))),
-                2 => Expr::Cast { ty: Ty::Str, try_: false, implicit: false, e: b(self.gen(rng, Ty::Int(64), d - 1)) },
+                0 | 1 => Expr::Bin(Op::Concat, b(self.expr(rng, Ty::Str, d - 1)), b(self.expr(rng, Ty::Str, d - 1))),
+                2 => Expr::Cast { ty: Ty::Str, try_: false, implicit: false, e: b(self.expr(rng, Ty::Int(64), d - 1)) },
                 _ => self.leaf(rng, ty),
             },
         }
@@ -1383,8 +1383,8 @@ impl<'a> ExprGen<'a> {
             if rng.chance(1, 4) {
                 let w2 = *rng.pick(&[8u8, 16, 32, 64]);
                 if w2 != w {
-                    let l = self.gen(rng, t, d);
-                    let r = self.gen(rng, Ty::Int(w2), d);
+                    let l = self.expr(rng, t, d);
+                    let r = self.expr(rng, Ty::Int(w2), d);
                     // make the widening explicit in the model, implicit in SQL
                     let wide = Ty::Int(w.max(w2));
                     let wrap = |e: Expr, from: u8| if from < w.max(w2) { Expr::Cast { ty: wide, try_: false, implicit: true, e: Box::new(e) } } else { e };
@@ -1392,7 +1392,7 @@ impl<'a> ExprGen<'a> {
                 }
             }
         }
-        (self.gen(rng, t, d), self.gen(rng, t, d))
+        (self.expr(rng, t, d), self.expr(rng, t, d))
     }
 }
 
@@ -1533,8 +1533,10 @@ impl<'a> QueryGen<'a> {
         format!("x{}", self.n_alias)
     }
     fn table(&mut self, rng: &mut Rng) -> From {
-        let t = &self.db[rng.below(self.db.len() as u64) as usize];
-        From::Table { name: t.name.clone(), cols: t.cols.clone(), alias: self.alias() }
+        let db = self.db;
+        let t = &db[rng.below(db.len() as u64) as usize];
+        let alias = self.alias();
+        From::Table { name: t.name.clone(), cols: t.cols.clone(), alias }
     }
 
     fn join_on(&self, rng: &mut Rng, l: &[ColInfo], r: &[ColInfo], d: u32) -> Expr {
@@ -1556,13 +1558,13 @@ impl<'a> QueryGen<'a> {
         };
         match rng.below(10) {
             0..=4 if !pairs.is_empty() => eq(rng),
-            5 | 6 if !pairs.is_empty() => Expr::and(eq(rng), g.gen(rng, Ty::Bool, d)),
+            5 | 6 if !pairs.is_empty() => Expr::and(eq(rng), g.expr(rng, Ty::Bool, d)),
             7 if !pairs.is_empty() => {
                 let (i, j) = *rng.pick(&pairs);
                 Expr::bin(*rng.pick(&[Op::Lt, Op::Le, Op::Ne, Op::NotDistinct]), Expr::Col(i), Expr::Col(j))
             }
             8 => Expr::Lit(Val::Bool(true), Ty::Bool, false),
-            _ => g.gen(rng, Ty::Bool, d),
+            _ => g.expr(rng, Ty::Bool, d),
         }
     }
 
@@ -1606,7 +1608,7 @@ impl<'a> QueryGen<'a> {
         } else {
             None
         };
-        let local = if rng.chance(1, 2) { Some(ExprGen { cols: &isc, outer: &[], err_pct: 0, allow_like: false }.gen(rng, Ty::Bool, d.min(1))) } else { None };
+        let local = if rng.chance(1, 2) { Some(ExprGen { cols: &isc, outer: &[], err_pct: 0, allow_like: false }.expr(rng, Ty::Bool, d.min(1))) } else { None };
         let where_ = match (corr, local) {
             (Some(a), Some(b)) => Some(Expr::and(a, b)),
             (Some(a), None) | (None, Some(a)) => Some(a),
@@ -1624,7 +1626,7 @@ impl<'a> QueryGen<'a> {
                     let i = rng.below(isc.len() as u64) as usize;
                     (i, isc[i].ty)
                 };
-                let x = outer_gen.gen(rng, ty, 1);
+                let x = outer_gen.expr(rng, ty, 1);
                 let sel = Select { from: inner_from, where_, group: None, proj: vec![(Expr::Col(ci), ty)], distinct: false };
                 Expr::Sub { kind: SubKind::In, neg: rng.chance(1, 2), x: Some(Box::new(x)), q: Box::new(Query::select(sel)) }
             }
@@ -1636,13 +1638,13 @@ impl<'a> QueryGen<'a> {
                 let agg = AggCall { f, distinct: false, arg: Expr::Col(ci), filter: None, ty: Ty::Int(64) };
                 let sel = Select { from: inner_from, where_, group: Some(Group { keys: vec![], aggs: vec![agg], having: None }), proj: vec![(Expr::Col(0), Ty::Int(64))], distinct: false };
                 let sub = Expr::Sub { kind: SubKind::Scalar, neg: false, x: None, q: Box::new(Query::select(sel)) };
-                let x = outer_gen.gen(rng, Ty::Int(64), 1);
+                let x = outer_gen.expr(rng, Ty::Int(64), 1);
                 Expr::bin(*rng.pick(&Op::CMP), x, sub)
             }
             _ => {
                 let int_cols: Vec<usize> = isc.iter().enumerate().filter(|(_, c)| c.ty == Ty::Int(64)).map(|(i, _)| i).collect();
                 let ci = *rng.pick(&int_cols);
-                let x = outer_gen.gen(rng, Ty::Int(64), 1);
+                let x = outer_gen.expr(rng, Ty::Int(64), 1);
                 let sel = Select { from: inner_from, where_, group: None, proj: vec![(Expr::Col(ci), Ty::Int(64))], distinct: false };
                 Expr::Sub { kind: SubKind::Quant(*rng.pick(&Op::CMP), rng.chance(1, 2)), neg: false, x: Some(Box::new(x)), q: Box::new(Query::select(sel)) }
             }
@@ -1659,7 +1661,7 @@ impl<'a> QueryGen<'a> {
             let use_sub = allow_sub && self.allow_sub && rng.chance(2, 5);
             let perr = if joined || use_sub { 0 } else { self.err_pct / 2 };
             let g = ExprGen { cols: &sc, outer, err_pct: perr, allow_like: true };
-            let p = g.gen(rng, Ty::Bool, d.min(2));
+            let p = g.expr(rng, Ty::Bool, d.min(2));
             if use_sub {
                 has_sub = true;
                 let s = self.gen_sub_pred(rng, &sc, d);
@@ -1701,18 +1703,18 @@ impl<'a> QueryGen<'a> {
                 let (arg, aty) = match f {
                     AggFn::Sum => {
                         let w = *rng.pick(&[64u8, 64, 32, 8]);
-                        (g0.gen(rng, Ty::Int(w), 1), Ty::Int(w))
+                        (g0.expr(rng, Ty::Int(w), 1), Ty::Int(w))
                     }
                     _ => {
                         let t = g0.any_ty_pub(rng);
-                        (g0.gen(rng, t, 1), t)
+                        (g0.expr(rng, t, 1), t)
                     }
                 };
                 let ty = match f {
                     AggFn::CountStar | AggFn::Count | AggFn::Sum => Ty::Int(64),
                     _ => aty,
                 };
-                let filter = if rng.chance(1, 5) { Some(g0.gen(rng, Ty::Bool, 1)) } else { None };
+                let filter = if rng.chance(1, 5) { Some(g0.expr(rng, Ty::Bool, 1)) } else { None };
                 aggs.push(AggCall { f, distinct: f != AggFn::CountStar && rng.chance(1, 4), arg, filter, ty });
             }
             let group = Group { keys, aggs, having: None };
@@ -1728,9 +1730,9 @@ impl<'a> QueryGen<'a> {
             }
             if rng.chance(1, 3) || proj.is_empty() {
                 let t = pg.any_ty_pub(rng);
-                proj.push((pg.gen(rng, t, 1), t));
+                proj.push((pg.expr(rng, t, 1), t));
             }
-            let having = if rng.chance(1, 3) { Some(pg.gen(rng, Ty::Bool, 1)) } else { None };
+            let having = if rng.chance(1, 3) { Some(pg.expr(rng, Ty::Bool, 1)) } else { None };
             let Select { from, where_, group, .. } = tmp;
             let mut group = group.unwrap();
             group.having = having;
@@ -1739,13 +1741,13 @@ impl<'a> QueryGen<'a> {
         let perr = self.err_pct;
         let g = ExprGen { cols: &sc, outer, err_pct: perr, allow_like: true };
         let proj: Vec<(Expr, Ty)> = match want {
-            Some(tys) => tys.iter().map(|t| (g.gen(rng, *t, d.min(2)), *t)).collect(),
+            Some(tys) => tys.iter().map(|t| (g.expr(rng, *t, d.min(2)), *t)).collect(),
             None => {
                 let n = 1 + rng.below(3) as usize;
                 (0..n)
                     .map(|_| {
                         let t = g.any_ty_pub(rng);
-                        (g.gen(rng, t, d.min(2)), t)
+                        (g.expr(rng, t, d.min(2)), t)
                     })
                     .collect()
             }
@@ -1855,4 +1857,264 @@ impl Query {
         };
         Query { body, order: self.order.clone(), limit: self.limit }
     }
+}
+
+// ------------------------------------------------------------------------------------ datafusion_expr bridge
+
+use datafusion_common::{DFSchema, ScalarValue};
+use datafusion_expr::{BinaryExpr as DfBinary, Expr as DfExpr, Operator};
+
+impl Val {
+    pub fn scalar(&self, ty: Ty) -> ScalarValue {
+        match (self, ty) {
+            (Val::Null, Ty::Int(8)) => ScalarValue::Int8(None),
+            (Val::Null, Ty::Int(16)) => ScalarValue::Int16(None),
+            (Val::Null, Ty::Int(32)) => ScalarValue::Int32(None),
+            (Val::Null, Ty::Int(_)) => ScalarValue::Int64(None),
+            (Val::Null, Ty::Bool) => ScalarValue::Boolean(None),
+            (Val::Null, Ty::Str) => ScalarValue::Utf8(None),
+            (Val::Int(8, n), _) => ScalarValue::Int8(Some(*n as i8)),
+            (Val::Int(16, n), _) => ScalarValue::Int16(Some(*n as i16)),
+            (Val::Int(32, n), _) => ScalarValue::Int32(Some(*n as i32)),
+            (Val::Int(_, n), _) => ScalarValue::Int64(Some(*n)),
+            (Val::Bool(b), _) => ScalarValue::Boolean(Some(*b)),
+            (Val::Str(s), _) => ScalarValue::Utf8(Some(s.clone())),
+        }
+    }
+}
+
+pub fn scalar_val(s: &ScalarValue) -> Option<Val> {
+    Some(match s {
+        ScalarValue::Null => Val::Null,
+        ScalarValue::Int8(v) => v.map(|n| Val::Int(8, n as i64)).unwrap_or(Val::Null),
+        ScalarValue::Int16(v) => v.map(|n| Val::Int(16, n as i64)).unwrap_or(Val::Null),
+        ScalarValue::Int32(v) => v.map(|n| Val::Int(32, n as i64)).unwrap_or(Val::Null),
+        ScalarValue::Int64(v) => v.map(|n| Val::Int(64, n)).unwrap_or(Val::Null),
+        ScalarValue::Boolean(v) => v.map(Val::Bool).unwrap_or(Val::Null),
+        ScalarValue::Utf8(v) | ScalarValue::LargeUtf8(v) | ScalarValue::Utf8View(v) => v.clone().map(Val::Str).unwrap_or(Val::Null),
+        _ => return None,
+    })
+}
+
+impl Op {
+    pub fn df(&self) -> Operator {
+        match self {
+            Op::Add => Operator::Plus,
+            Op::Sub => Operator::Minus,
+            Op::Mul => Operator::Multiply,
+            Op::Div => Operator::Divide,
+            Op::Mod => Operator::Modulo,
+            Op::Eq => Operator::Eq,
+            Op::Ne => Operator::NotEq,
+            Op::Lt => Operator::Lt,
+            Op::Le => Operator::LtEq,
+            Op::Gt => Operator::Gt,
+            Op::Ge => Operator::GtEq,
+            Op::And => Operator::And,
+            Op::Or => Operator::Or,
+            Op::Distinct => Operator::IsDistinctFrom,
+            Op::NotDistinct => Operator::IsNotDistinctFrom,
+            Op::Concat => Operator::StringConcat,
+        }
+    }
+    pub fn of_df(op: &Operator) -> Option<Op> {
+        Some(match op {
+            Operator::Plus => Op::Add,
+            Operator::Minus => Op::Sub,
+            Operator::Multiply => Op::Mul,
+            Operator::Divide => Op::Div,
+            Operator::Modulo => Op::Mod,
+            Operator::Eq => Op::Eq,
+            Operator::NotEq => Op::Ne,
+            Operator::Lt => Op::Lt,
+            Operator::LtEq => Op::Le,
+            Operator::Gt => Op::Gt,
+            Operator::GtEq => Op::Ge,
+            Operator::And => Op::And,
+            Operator::Or => Op::Or,
+            Operator::IsDistinctFrom => Op::Distinct,
+            Operator::IsNotDistinctFrom => Op::NotDistinct,
+            Operator::StringConcat => Op::Concat,
+            _ => return None,
+        })
+    }
+}
+
+impl Expr {
+    /// the expression as a `datafusion_expr::Expr` over columns named as in `cols`
+    /// (implicit casts are written explicitly: no analyzer runs on this path)
+    pub fn df(&self, cols: &[(String, Ty)]) -> DfExpr {
+        use datafusion_expr::expr as dx;
+        let b = |e: &Expr| Box::new(e.df(cols));
+        match self {
+            Expr::Col(i) => datafusion_expr::col(cols[*i].0.as_str()),
+            Expr::Outer(_) | Expr::Sub { .. } => panic!("no datafusion_expr form"),
+            Expr::Lit(v, ty, _) => DfExpr::Literal(v.scalar(*ty), None),
+            Expr::Ph(i, _) => datafusion_expr::placeholder(format!("${}", i + 1)),
+            Expr::Bin(op, a, c) => DfExpr::BinaryExpr(DfBinary { left: b(a), op: op.df(), right: b(c) }),
+            Expr::Not(a) => DfExpr::Not(b(a)),
+            Expr::Neg(a) => DfExpr::Negative(b(a)),
+            Expr::Is(k, n, a) => match (k, n) {
+                (IsKind::Null, false) => DfExpr::IsNull(b(a)),
+                (IsKind::Null, true) => DfExpr::IsNotNull(b(a)),
+                (IsKind::True, false) => DfExpr::IsTrue(b(a)),
+                (IsKind::True, true) => DfExpr::IsNotTrue(b(a)),
+                (IsKind::False, false) => DfExpr::IsFalse(b(a)),
+                (IsKind::False, true) => DfExpr::IsNotFalse(b(a)),
+                (IsKind::Unknown, false) => DfExpr::IsUnknown(b(a)),
+                (IsKind::Unknown, true) => DfExpr::IsNotUnknown(b(a)),
+            },
+            Expr::In(n, a, l) => DfExpr::InList(dx::InList { expr: b(a), list: l.iter().map(|e| e.df(cols)).collect(), negated: *n }),
+            Expr::Between(n, a, lo, hi) => DfExpr::Between(dx::Between { expr: b(a), negated: *n, low: b(lo), high: b(hi) }),
+            Expr::Case(op, whens, els) => DfExpr::Case(dx::Case {
+                expr: op.as_ref().map(|o| b(o)),
+                when_then_expr: whens.iter().map(|(w, t)| (b(w), b(t))).collect(),
+                else_expr: els.as_ref().map(|o| b(o)),
+            }),
+            Expr::Coalesce(args) => datafusion_functions::core::expr_fn::coalesce(args.iter().map(|e| e.df(cols)).collect()),
+            Expr::Nullif(a, c) => datafusion_functions::core::expr_fn::nullif(a.df(cols), c.df(cols)),
+            Expr::Cast { ty, try_, e, .. } => {
+                if *try_ {
+                    datafusion_expr::try_cast(e.df(cols), ty.arrow())
+                } else {
+                    datafusion_expr::cast(e.df(cols), ty.arrow())
+                }
+            }
+            Expr::Like { neg, ci, e, pat, esc } => DfExpr::Like(dx::Like { negated: *neg, expr: b(e), pattern: b(pat), escape_char: *esc, case_insensitive: *ci }),
+        }
+    }
+}
+
+pub fn ty_of_arrow(dt: &DataType) -> Option<Ty> {
+    Some(match dt {
+        DataType::Int8 => Ty::Int(8),
+        DataType::Int16 => Ty::Int(16),
+        DataType::Int32 => Ty::Int(32),
+        DataType::Int64 => Ty::Int(64),
+        DataType::Boolean => Ty::Bool,
+        DataType::Utf8 | DataType::LargeUtf8 | DataType::Utf8View => Ty::Str,
+        _ => return None,
+    })
+}
+
+/// export a real `datafusion_expr::Expr` as a model s-expression; `Err(what)` when it contains a
+/// construct outside the model
+pub fn export_df(e: &DfExpr, schema: &DFSchema) -> Result<String, String> {
+    let r = |x: &DfExpr| export_df(x, schema);
+    let is = |k: &str, n: bool, x: &DfExpr| -> Result<String, String> { Ok(format!("(is {k} {} {})", b2a(n), export_df(x, schema)?)) };
+    Ok(match e {
+        DfExpr::Column(c) => {
+            let i = schema.index_of_column(c).map_err(|e| e.to_string())?;
+            format!("(col {i})")
+        }
+        DfExpr::Literal(s, _) => match scalar_val(s) {
+            Some(v) => format!("(lit {})", v.sexp()),
+            None => return Err(format!("literal {s:?}")),
+        },
+        DfExpr::Alias(a) => r(&a.expr)?,
+        DfExpr::BinaryExpr(DfBinary { left, op, right }) => match Op::of_df(op) {
+            Some(o) => format!("(bin {} {} {})", o.sexp(), r(left)?, r(right)?),
+            None => return Err(format!("operator {op}")),
+        },
+        DfExpr::Not(a) => format!("(not {})", r(a)?),
+        DfExpr::Negative(a) => format!("(neg {})", r(a)?),
+        DfExpr::IsNull(a) => is("null", false, a)?,
+        DfExpr::IsNotNull(a) => is("null", true, a)?,
+        DfExpr::IsTrue(a) => is("true", false, a)?,
+        DfExpr::IsNotTrue(a) => is("true", true, a)?,
+        DfExpr::IsFalse(a) => is("false", false, a)?,
+        DfExpr::IsNotFalse(a) => is("false", true, a)?,
+        DfExpr::IsUnknown(a) => is("unknown", false, a)?,
+        DfExpr::IsNotUnknown(a) => is("unknown", true, a)?,
+        DfExpr::InList(l) => {
+            let mut s = format!("(in {} {}", b2a(l.negated), r(&l.expr)?);
+            for x in &l.list {
+                s.push(' ');
+                s.push_str(&r(x)?);
+            }
+            s.push(')');
+            s
+        }
+        DfExpr::Between(bt) => format!("(between {} {} {} {})", b2a(bt.negated), r(&bt.expr)?, r(&bt.low)?, r(&bt.high)?),
+        DfExpr::Case(c) => {
+            let mut s = String::from("(case (");
+            if let Some(o) = &c.expr {
+                s.push_str(&r(o)?);
+            }
+            s.push_str(") (");
+            for (i, (w, t)) in c.when_then_expr.iter().enumerate() {
+                if i > 0 {
+                    s.push(' ');
+                }
+                let _ = write!(s, "({} {})", r(w)?, r(t)?);
+            }
+            s.push_str(") (");
+            if let Some(o) = &c.else_expr {
+                s.push_str(&r(o)?);
+            }
+            s.push_str("))");
+            s
+        }
+        DfExpr::Cast(c) => match ty_of_arrow(c.field.data_type()) {
+            Some(t) => format!("(cast {} f {})", t.sexp(), r(&c.expr)?),
+            None => return Err(format!("cast to {}", c.field.data_type())),
+        },
+        DfExpr::TryCast(c) => match ty_of_arrow(c.field.data_type()) {
+            Some(t) => format!("(cast {} t {})", t.sexp(), r(&c.expr)?),
+            None => return Err(format!("try_cast to {}", c.field.data_type())),
+        },
+        DfExpr::Like(l) => format!(
+            "(like {} {} {} {} ({}))",
+            b2a(l.negated),
+            b2a(l.case_insensitive),
+            r(&l.expr)?,
+            r(&l.pattern)?,
+            l.escape_char.map(|c| (c as u32).to_string()).unwrap_or_default()
+        ),
+        DfExpr::ScalarFunction(f) => match f.name() {
+            "coalesce" => {
+                let mut s = String::from("(coalesce");
+                for a in &f.args {
+                    s.push(' ');
+                    s.push_str(&r(a)?);
+                }
+                s.push(')');
+                s
+            }
+            "nullif" if f.args.len() == 2 => format!("(nullif {} {})", r(&f.args[0])?, r(&f.args[1])?),
+            n => return Err(format!("function {n}")),
+        },
+        other => return Err(format!("node {}", other.variant_name())),
+    })
+}
+
+/// all rows over the given per-column domains (cartesian product)
+pub fn all_rows(domains: &[Vec<Val>]) -> Vec<Vec<Val>> {
+    let mut out: Vec<Vec<Val>> = vec![vec![]];
+    for d in domains {
+        let mut next = Vec::with_capacity(out.len() * d.len());
+        for r in &out {
+            for v in d {
+                let mut r2 = r.clone();
+                r2.push(v.clone());
+                next.push(r2);
+            }
+        }
+        out = next;
+    }
+    out
+}
+
+/// the small exhaustive domain of a type (boundaries, NULL, duplicates of interest)
+pub fn domain_of(ty: Ty) -> Vec<Val> {
+    match ty {
+        Ty::Int(w) => vec![Val::Null, Val::Int(w, int_min(w)), Val::Int(w, -1), Val::Int(w, 0), Val::Int(w, 1), Val::Int(w, 2), Val::Int(w, int_max(w))],
+        Ty::Bool => vec![Val::Null, Val::Bool(false), Val::Bool(true)],
+        Ty::Str => vec![Val::Null, Val::Str("".into()), Val::Str("a".into()), Val::Str("ab".into()), Val::Str("12".into()), Val::Str("A%".into())],
+    }
+}
+
+/// values of an array as model values
+pub fn vals_of_array(a: &dyn Array) -> Result<Vec<Val>, String> {
+    (0..a.len()).map(|i| cell(a, i).ok_or_else(|| format!("unmodelled type {:?}", a.data_type()))).collect()
 }
